@@ -232,7 +232,7 @@ def tiers(ctx):
         # the exporter's walk has a memory (in a list, in a code block): a blank heading / quote / code paragraph / list item /
         # plain paragraph, then every kind of block with formatted text and with text that must be escaped ...
         "carry": layer("CS_meta", MaxBlocks=2, MinBlocks=2, Kinds=ALLK, BlankKinds=STYLED, BlankOnly=S(1), EmptyCls=S("none", "ws"),
-                       FlagNames=S("", "b", "s"), FirstCls=S("star"), TblShapes=S("1x1")),
+                       FlagNames=S("", "b"), FirstCls=S("w1", "star"), TblShapes=S("1x1")),
         # ... and the same between two blocks (the blank paragraph's content rotates with the seed in the quick tier)
         "carry3": layer("CS_meta", MaxBlocks=3, MinBlocks=3, Kinds=S("p", "li", "code", "empty") if q else ALLK, BlankKinds=STYLED, BlankOnly=S(2),
                         EmptyCls=S(("none", "ws")[ctx.seed % 2]) if q else S("none", "ws"), FlagNames=S("", "b"), FirstCls=S("star"),
